@@ -268,12 +268,18 @@ class Server(Acceptor):
         self.serviceAccepts()  # populate .axes
         while self.axes:
             cs, ca = self.axes.popleft()
-            if ca != cs.getpeername() or self.eha[1] != cs.getsockname()[1]: # only port on eha
+            try:
+                peer, sock = cs.getpeername(), cs.getsockname()
+            except OSError as ex:  # peer reset before connection serviced so give up on it
+                logger.error("Closing accepted socket on %s.\n%s\n", ca, ex)
+                cs.close()
+                continue
+            if ca != peer or self.eha[1] != sock[1]: # only port on eha
                 raise ValueError("Accepted socket host addresses malformed for "
                                  "peer. ca {0} != {1} or ha port {2} != {3}\n"
-                                 "".format(ca, cs.getpeername(), self.eha, cs.getsockname()))
+                                 "".format(ca, peer, self.eha, sock))
             remoter = Remoter(tymth=self.tymth,
-                              ha=cs.getsockname(),
+                              ha=sock,
                               ca=ca,
                               cs=cs,
                               bs=self.bs,
@@ -382,7 +388,7 @@ class Server(Acceptor):
             try:
                 ix.serviceReceives()
             except OSError as ex:
-                logger.error("Closing incoming socket on %s.\n%s\n", ix.cs.getpeername(), ex)
+                logger.error("Closing incoming socket on %s.\n%s\n", ca, ex)
                 self.removeIx(ca=ca)  # also closes ix
 
 
@@ -546,12 +552,18 @@ class ServerTls(Server):
         self.serviceAccepts()  # populate .axes
         while self.axes:
             cs, ca = self.axes.popleft()
-            if ca != cs.getpeername() or self.eha[1] != cs.getsockname()[1]: # only port on eha
+            try:
+                peer, sock = cs.getpeername(), cs.getsockname()
+            except OSError as ex:  # peer reset before connection serviced so give up on it
+                logger.error("Closing accepted socket on %s.\n%s\n", ca, ex)
+                cs.close()
+                continue
+            if ca != peer or self.eha[1] != sock[1]: # only port on eha
                 raise ValueError("Accepted socket host addresses malformed for "
                                  "peer. ca {0} != {1} or ha port {2} != {3}\n"
-                                 "".format(ca, cs.getpeername(), self.eha, cs.getsockname()))
+                                 "".format(ca, peer, self.eha, sock))
             remoter = RemoterTls(tymth=self.tymth,
-                                 ha=cs.getsockname(),
+                                 ha=sock,
                                  ca=ca,
                                  bs=self.bs,
                                  cs=cs,
@@ -978,7 +990,7 @@ class RemoterTls(Remoter):
 
         if data:  # connection open
             if self.wl:  # log over the wire rx
-                self.wl.writeRx(data, who=self.cs.getpeername())
+                self.wl.writeRx(data, who=self.ca)
 
             if self.refreshable:
                 self.refresh()
@@ -1020,7 +1032,7 @@ class RemoterTls(Remoter):
 
         if result:
             if self.wl:
-                self.wl.writeTx(data[:result], who=self.cs.getpeername())
+                self.wl.writeTx(data[:result], who=self.ca)
 
             if self.refreshable:
                 self.refresh()
